@@ -91,6 +91,16 @@ def programs(tier):
             progs.append(("data-alias-probe", f"10 DATA {l},,{l}\n20 READ P,Q,R\n30 " + t.replace("#", l)))
     progs.append(("data-alias-probe", "10 DATA 1,,3\n20 READ A,B,C\n30 SET(1,2,3)\n40 SOUND 1,3"))
     progs.append(("data-alias-probe", "10 SOUND 1,3:SET(1,2,3)\n20 READ A,B,C\n30 DATA 1,,3"))
+    # the addresses around the two speed pokes, in every spelling
+    for a in ["65494", "65495", "65496", "65497", "65498", "65499", "&HFFD6", "&HFFD7", "&HFFD8", "&HFFD9", "&HFFDA", "65495.0",
+              "65497.0", "65496.5", "32768", "0", "1024", "&H400"]:
+        progs.append(("poke-probe", f"10 POKE {a},0:POKE {a},V\n20 SOUND 1,1"))
+        progs.append(("poke-probe", f"10 A=1:POKE {a},A+1"))
+    # nested conditionals with convertible functions in the inner condition / body
+    for c in ["INKEY$=\"X\"", "BUTTON(0)=1", "INT(B)=2", "JOYSTK(0)>31", "POINT(1,2)=3", "VAL(B$)=1"]:
+        progs.append(("nested-if-probe", f"10 IF A=1 THEN IF {c} THEN PRINT \"Y\"\n20 END"))
+        progs.append(("nested-if-probe", f"10 IF A=1 THEN IF {c} THEN K=1 ELSE K=2\n20 END"))
+        progs.append(("nested-if-probe", f"10 IF A=1 THEN B=2:IF {c} THEN 20\n20 END"))
     # keyword pairs and statements spelled without any blank (as a detokenised listing prints them)
     for p in DENSE_PROBES:
         progs.append(("dense-probe", p))
